@@ -29,12 +29,13 @@ TNext ==
                    IF e.a = "Tick" THEN prev.role ELSE e.role
          pv == IF prev.others = {} THEN oth ELSE prev.others
          expRole == IF Exp(pv) = e.role THEN Exp(pv) ELSE Exp(oth)
-         heardNow == {m \in oth : heard1[m] > e.now - F}
+         \* "longer than the timeout": an answer received exactly F ago still counts for the property (the code is stricter)
+         heardNow == {m \in oth : heard1[m] >= e.now - F}
          implLast == [m \in oth |-> IF m \in DOMAIN e.last THEN e.last[m] ELSE -1]
          hqExp == Maj(1 + Cardinality(oth \cap ToSet(e.up)), nv)
          d == (IF e.a = "Tick" /\ prev.role = "L" /\ expRole # e.role THEN {"role"} ELSE {})
               \cup (IF e.role = "L" /\ \E m \in oth : implLast[m] # heard1[m] THEN {"lastResponseTime"} ELSE {})
-         heardPrev == {m \in pv : heard1[m] > e.now - F}
+         heardPrev == {m \in pv : heard1[m] >= e.now - F}
          bad == (IF e.a = "Tick" /\ e.role = "L" /\ prev.role = "L" /\ ~Maj(1 + Cardinality(heardNow), nv)
                     /\ ~Maj(1 + Cardinality(heardPrev), Cardinality(pv) + 1) THEN {"C20.StepDownBound"} ELSE {})
                 \cup (IF e.hq # hqExp THEN {"C20.HasQuorumExact"} ELSE {})
